@@ -942,7 +942,14 @@ fn val_model(v: &Val) -> Model {
 
 fn program(r: &mut Rng, max: usize, log: &mut Vec<String>) {
     let mut pool: Vec<Val> = Vec::new();
-    let m0 = small_model(r, max);
+    // mostly tiny digraphs, sometimes one that needs several 64-bit blocks
+    let m0 = if max >= 7 && r.chance(0.3) {
+        let f = r.below(gen::FAMILIES.len());
+        let n = r.range(9, 24);
+        gen::family(r, f, n)
+    } else {
+        small_model(r, max)
+    };
     pool.push(match r.below(6) {
         0 => Val::AL(AdjacencyList::build(&m0)),
         1 => Val::AM(AdjacencyMap::build(&m0)),
@@ -1142,7 +1149,10 @@ fn program(r: &mut Rng, max: usize, log: &mut Vec<String>) {
                             p.clone_from(q);
                             mutate(p, a, b);
                             let _ = catch(|| p.toggle(b, a));
-                            let c = p.clone();
+                            // a clone has an exactly sized buffer
+                            let mut c = p.clone();
+                            mutate(&mut c, a, b);
+                            let _ = catch(|| c.toggle(b, a));
                             let _ = catch(|| c.arcs().count());
                         }
                         (Val::EL(p), Val::EL(q)) => {
@@ -1157,7 +1167,7 @@ fn program(r: &mut Rng, max: usize, log: &mut Vec<String>) {
             }
             _ => {
                 // a fresh generator value
-                let n = r.range(1, max);
+                let n = if max >= 7 && r.chance(0.3) { r.range(9, 24) } else { r.range(1, max) };
                 let s = r.next();
                 let g = r.below(4);
                 log.push(format!("#new = generator {g} order {n}"));
